@@ -352,6 +352,106 @@ def f5(prog, ctx):
     ctx.floor("F5", "profile references in ProfileFeatureCounter.is_valid", n, 2)
 
 
+def f6(prog, ctx):
+    """Row attributes of a feature are aggregated over all isoforms that contain it: strand string and gene list range over the same
+    collection, neither is taken from a single member."""
+    from ..engine.dataflow import single_def_env
+    from ..engine import symexec
+    f = prog.func("src/gene_info.py", "GeneInfo.set_feature_properties")
+    ctor = [c for c in walk_no_nested(f) if isinstance(c, ast.Call) and (call_name(c) or "").split(".")[-1] == "FeatureInfo"]
+    if len(ctor) != 1:
+        raise AnalysisError("set_feature_properties: expected one FeatureInfo(...) construction")
+    fi = prog.func("src/gene_info.py", "FeatureInfo.__init__")
+    from ..engine import argswap
+    bound = argswap.bind_args(ctor[0], fi, bound_method=True)
+    strand_e = next((v for k, v in bound.items() if "strand" in k), None)
+    genes_e = next((v for k, v in bound.items() if "gene" in k), None)
+    if strand_e is None or genes_e is None:
+        raise AnalysisError("FeatureInfo(...): strand / gene arguments not found")
+    loop = None
+    for l in flow.enclosing_loops(ctor[0]):
+        if isinstance(l, ast.For):
+            loop = l
+    if loop is None:
+        raise AnalysisError("set_feature_properties: FeatureInfo is not built in the loop over features")
+    env = {}
+    for a in walk_no_nested(loop):
+        if isinstance(a, ast.Assign) and len(a.targets) == 1 and isinstance(a.targets[0], ast.Name):
+            env.setdefault(a.targets[0].id, []).append(a.value)
+    env = {k: v[0] for k, v in env.items() if len(v) == 1}
+
+    def closure(e, depth=0):
+        for _ in range(5):
+            e2 = symexec.subst(e, env)
+            if src(e2) == src(e):
+                break
+            e = e2
+        return e
+
+    def domain(e):
+        """(collections a comprehension ranges over, collections indexed with a constant) in the closed expression"""
+        ranged, picked = set(), set()
+        for x in ast.walk(e):
+            if isinstance(x, (ast.ListComp, ast.SetComp, ast.GeneratorExp)):
+                for g in x.generators:
+                    if not isinstance(g.iter, (ast.ListComp, ast.SetComp, ast.GeneratorExp)):
+                        ranged.add(src(g.iter))          # a comprehension over a comprehension ranges over the inner one's collection
+            if isinstance(x, ast.Subscript) and isinstance(x.slice, ast.Constant) and isinstance(x.slice.value, int):
+                base = x.value
+                if isinstance(base, (ast.ListComp, ast.Subscript, ast.Call)):
+                    picked.add(src(base))
+        return ranged, picked
+    sr, sp = domain(closure(strand_e))
+    gr, gp = domain(closure(genes_e))
+    coll = {x for x in sr | gr if "[" in x}
+    n = 0
+    for what, r, pck in (("strand", sr, sp), ("gene list", gr, gp)):
+        n += 1
+        single = [x for x in pck if any(c in x for c in coll)]
+        if not r:
+            ctx.fail("F6", ctor[0], f._qualname, "%s of the row" % what, "the %s of a feature row is not aggregated over the isoforms containing the feature" % what)
+        elif single:
+            ctx.fail("F6", ctor[0], f._qualname, "%s of the row: %s[<const>]" % (what, single[0][:60]),
+                     "the %s of a feature row is taken from a single member (%s[...]) of the collection of isoforms that contain the feature, while the "
+                     "row describes all of them: an exon / intron annotated on both strands or in two genes gets the attributes of whichever isoform "
+                     "comes first" % (what, single[0][:50]))
+        elif sr != gr:
+            ctx.fail("F6", ctor[0], f._qualname, "strand over %s, genes over %s" % (sorted(sr), sorted(gr)),
+                     "strand and gene list of a feature row are aggregated over different collections")
+        else:
+            ctx.ok("F6", "src/gene_info.py:%d" % ctor[0].lineno, "%s of a feature row aggregated over %s" % (what, sorted(r)[0][:50]))
+    ctx.floor("F6", "aggregated row attributes", n, 2)
+
+
+def f7(prog, ctx):
+    """Under --count_exons every read's exon profile is the one computed by construct_exon_profile from its blocks."""
+    from ..engine import taint
+    f = prog.func("src/long_read_profiles.py", "CombinedProfileConstructor.construct_profiles")
+    n = 0
+    fi = prog.func("src/long_read_profiles.py", "CombinedReadProfiles.__init__")
+    from ..engine import argswap
+    for pth in flow.paths(f):
+        if pth.exit != "return" or pth.exit_node is None or not isinstance(pth.exit_node.value, ast.Call):
+            continue
+        bound = argswap.bind_args(pth.exit_node.value, fi, bound_method=True)
+        env = taint.run(pth, {})
+        flags = [pol for t, pol in pth.conds() if "count_exons" in src(t) and isinstance(t, (ast.Attribute, ast.Name))]
+        for kind, callee in (("exon", "construct_exon_profile"), ("intron", "construct_intron_profile"), ("split_exon", "construct_profile")):
+            arg = next((v for k, v in bound.items() if k.startswith(kind) or k == "read_%s_profile" % kind), None)
+            if arg is None:
+                raise AnalysisError("CombinedReadProfiles(...): %s profile argument not found" % kind)
+            if kind == "exon" and flags and not all(flags):
+                continue                       # exon counting is off on this path
+            n += 1
+            if "call:" + callee not in taint.influence(arg, env):
+                ctx.fail("F7", pth.exit_node, f._qualname, "%s profile = %s on path %s" % (kind, src(arg)[:40], pth.describe()[:80]),
+                         "on this path the %s profile handed on to the counters is not the result of %s(<the read's blocks>): reads taking this path "
+                         "are counted with a made-up profile" % (kind, callee))
+    if n:
+        ctx.ok("F7", "src/long_read_profiles.py:%d" % f.lineno, "every profile of every path comes from its construct_* call (%d path x profile pairs)" % n)
+    ctx.floor("F7", "path x profile pairs", n, 5)
+
+
 def run(prog, ctx):
     ctx.rule("F5", "ProfileFeatureCounter.is_valid refers to the profile vectors only through `is (not) None` and hasattr - never "
                    "through truthiness or length (an empty profile is valid)")
@@ -365,6 +465,12 @@ def run(prog, ctx):
                    "the feature table has exactly one entry per feature in list order")
     ctx.rule("F2", "in add_read_info_from_profile value 1 feeds only the inclusion counter and -1 only the exclusion counter, with "
                    "the feature id taken at the same index; dump writes the two in header order")
+    ctx.rule("F6", "in set_feature_properties the strand string and the gene list passed to FeatureInfo are both aggregated by a comprehension over "
+                   "the same collection (the isoforms containing the feature); neither picks a constant index of that collection")
+    f6(prog, ctx)
+    ctx.rule("F7", "construct_profiles: on every path, each profile passed to CombinedReadProfiles is (influence propagation) the result of its "
+                   "own construct_* call; the exon profile may be missing only when params.count_exons is false")
+    f7(prog, ctx)
     n = f1(prog, ctx)
     f2(prog, ctx)
     f3(prog, ctx)
